@@ -960,7 +960,8 @@ impl<'a> Case<'a> {
             .fail_rate(cfg.fail)
             .repair_rate(cfg.repair)
             .rng_seed(cfg.rng_seed)
-            .epoch(std::time::UNIX_EPOCH + Duration::from_secs(1_700_000_000))
+            // an epoch with a sub-millisecond part: since_epoch must be exactly epoch + virtual time, to the nanosecond
+            .epoch(std::time::UNIX_EPOCH + Duration::new(1_700_000_000, 123_456_789))
             .simulation_duration(Duration::from_secs(3600 * 24));
         if cfg.v6 {
             b.ip_version(turmoil::IpVersion::V6);
